@@ -17,6 +17,7 @@ CERTS = [('absent', None, None), ('cn0', (), 'client'), ('cn1', ('alice',), 'cli
          ('cn0-noeku', (), None), ('cn2-both', ('alice', 'mallory'), 'both'), ('cn2-noeku', ('alice', 'mallory'), None)]
 BEHAVIOURS = ['vouch', 'vouch-nogroups', 'user404', 'groups404', 'user403', 'user500', 'groups403', 'groups500',
               'unreachable', 'nonjson', 'nourl']
+FLIP = {'calls': 0}      # state of the 'flip' host: vouches (groups g1,g2) for the first request, then forgets the user
 GROUPS = {'vouch': ['g1', 'g2'], 'vouch-nogroups': []}
 
 
@@ -92,6 +93,14 @@ def fake_get(url, timeout=None, **kw):
     is_groups = url.rstrip('/').endswith('/groups')
     if host == 'unreachable':
         raise ConnectionError('stub: unreachable')
+    if host in ('flip', 'flipgroups'):
+        FLIP['calls'] += 1
+        first = FLIP['calls'] <= 2          # one user query + one groups query = the first request
+        if host == 'flip':
+            if first:
+                return FakeResp(200, {'groups': ['g1', 'g2']} if is_groups else {'user': 'x'})
+            return FakeResp(404, {'error': 'gone'})
+        return FakeResp(200, ({'groups': ['g1', 'g2']} if first else {'groups': ['g9']}) if is_groups else {'user': 'x'})
     table = {
         'vouch': (200, 200), 'vouch-nogroups': (200, 200), 'user404': (404, 200), 'groups404': (200, 404),
         'user403': (403, 200), 'user500': (500, 200), 'groups403': (200, 403), 'groups500': (200, 500),
@@ -130,6 +139,35 @@ def predict(cert_names, eku, tls_auth, blocks):
     return True, (cert_names[0], None)
 
 
+def flip_cells(ctx, srv, entries, reqs):
+    """One connection, two requests, the plug-in's answer changes in between: the second request must be judged by
+    the answer at its own time (user gone -> refused; groups changed -> new groups)."""
+    der = rig.make_cert(('alice',), 'client')
+    req = reqs[1][1]
+    for host, second in (('flip', None), ('flipgroups', ('alice', ['g9']))):
+        FLIP['calls'] = 0
+        del entries[:]
+        sent, esc = rig.session_roundtrip(srv.engine, req * 2, der, enable_tls_client_auth=True,
+                                          auth_settings=[('auth:slugs', {'enabled': 'True', 'url': 'http://%s/' % host})])
+        ctx.ev()
+        ctx.count('cells_checked')
+        ctx.count('changing_plugin_answers')
+        ctx.cell('cn1', True, host, 'two-requests')
+        if esc is not None or len(sent) != 2:
+            ctx.violation('no-response|plugin:%s' % host, 'no response per request', None)
+            continue
+        got = [(e[0], e[1]) if e else None for e in entries]
+        want = [('alice', ['g1', 'g2'])] + ([second] if second else [])
+        if got != want:
+            ctx.violation('identity|plugin:answer-changes-between-requests',
+                          'two requests on one connection while the SLUGS answer changes (%s): process_request received %r, '
+                          'the identities established at the time of each request are %r' % (host, got, want), None)
+        r2 = rig.Result(sent[1])
+        if second is None and not (r2.items and r2.items[0]['reason'] == AUTH_FAIL):
+            ctx.violation('answer|plugin:answer-changes-between-requests', 'the user was removed from SLUGS before the second '
+                          'request, which was answered %s' % (r2.brief(),), None)
+
+
 def run_case(ctx, case):
     import kmip.services.server.auth.slugs as slugs_mod
     real_get = slugs_mod.requests.get
@@ -157,6 +195,7 @@ def run_case(ctx, case):
                 bad = reqs[1][1]
                 reqs.append(('undecodable', bad[:4] + (len(bad) - 16).to_bytes(4, 'big') + bad[8:-8], False))
                 allcfg = dict(configs(ctx.tier))
+                flip_cells(ctx, srv, entries, reqs)
                 for cname in case['configs']:
                     blocks = allcfg[cname]
                     for (clabel, names, eku), tls_auth, (rlabel, req, decodable) in itertools.product(
